@@ -394,6 +394,7 @@ Lemma marshal_unmarshal : forall kg n fs,
   Forall (fun kf => fork_ok (fst kf) (fst (snd kf)) /\ child_ok (n_rbs n) (snd (snd kf))) fs ->
   exists bytes,
     marshal kg n = (if (length (n_okey n) =? 0) then set_okey n kg else n, Ok bytes) /\
+    64 <= length bytes /\
     forall m, unmarshal m bytes = (unmarshalled kg n fs m, None).
 Proof.
   intros kg n fs Hfs Hs Hrbs Hkey Hall.
@@ -413,9 +414,9 @@ Proof.
     rewrite Hk1. rewrite Hfb. rewrite <- HE, <- HI.
     rewrite (pad_to_short 32 K) by lia. rewrite Hkey, Nat.sub_diag. cbn [repeat]. rewrite app_nil_r.
     subst body Rb. now rewrite <- !app_assoc. }
-  exists (obfuscate K body). split; [exact Hm|]. intros m.
   assert (Hbl : 64 <= length body).
   { subst body. rewrite !app_length. cbn [length]. lia. }
+  exists (obfuscate K body). split; [exact Hm|]. split; [now rewrite obfuscate_length|]. intros m.
   unfold unmarshal. rewrite obfuscate_length.
   assert (E64 : (length body <? 64) = false) by (apply Nat.ltb_ge; exact Hbl). rewrite E64.
   rewrite obfuscate_firstn by lia.
